@@ -34,6 +34,9 @@ pub struct Ctx {
     /// ingredient indices of the struct ingredients (Ent, then Sym types in `Sym` order)
     pub ent_ing: OnceLock<u32>,
     pub sym_ing: OnceLock<[u32; 5]>,
+    /// C23 reference revalidation
+    pub retain_refs: std::sync::atomic::AtomicBool,
+    pub retained: Mutex<Vec<(usize, u16, u32)>>,
 }
 
 impl Ctx {
@@ -53,7 +56,28 @@ impl Ctx {
             names: Mutex::new(Default::default()),
             ent_ing: OnceLock::new(),
             sym_ing: OnceLock::new(),
+            retain_refs: std::sync::atomic::AtomicBool::new(false),
+            retained: Mutex::new(Vec::new()),
         })
+    }
+
+    /// Re-reads every retained reference (the database has not been borrowed mutably since they
+    /// were handed out) and returns the ones whose value changed.
+    pub fn check_retained(&self) -> Vec<String> {
+        let list: Vec<(usize, u16, u32)> = std::mem::take(&mut *self.retained.lock().unwrap());
+        let mut bad = Vec::new();
+        for (p, v, tag) in &list {
+            // SAFETY (by the property under test): references returned by tracked functions stay
+            // valid until the database is next borrowed mutably.
+            let r: &V = unsafe { &*(*p as *const V) };
+            if r.v != *v || r.tag != *tag {
+                bad.push(format!(
+                    "a reference returned earlier in this revision pointed to value {v} (tag {tag}) and now reads {} (tag {})",
+                    r.v, r.tag
+                ));
+            }
+        }
+        bad
     }
 
     pub fn node_of(&self, k: NodeKey) -> usize {
@@ -434,6 +458,11 @@ pub fn q_fix<'db>(db: &'db dyn Hdb, k: NodeKey) -> V {
     body_node(db, FnK::Fix, k, 0)
 }
 
+#[salsa::tracked(cycle_initial = fix_initial, lru = 1)]
+pub fn q_fix_lru<'db>(db: &'db dyn Hdb, k: NodeKey) -> V {
+    body_node(db, FnK::Fix, k, 0)
+}
+
 #[salsa::tracked(cycle_fn = fix_join, cycle_initial = fix_initial)]
 pub fn q_fixj<'db>(db: &'db dyn Hdb, k: NodeKey) -> V {
     body_node(db, FnK::FixJ, k, 0)
@@ -631,18 +660,32 @@ fn body_maker<'db>(db: &'db dyn Hdb, k: NodeKey) -> Vec<Ent<'db>> {
     out
 }
 
+/// C23: remembers every reference handed out by a tracked function together with the value it
+/// pointed to; `Ctx::check_retained` re-reads all of them just before the next `&mut` step. A memo
+/// freed too early shows up as a changed value here and as a report under Miri / ASan.
+fn retain<'a>(ctx: &Ctx, v: &'a V) -> &'a V {
+    if ctx.retain_refs.load(Ordering::Relaxed) {
+        ctx.retained
+            .lock()
+            .unwrap()
+            .push((v as *const V as usize, v.v, v.tag));
+    }
+    v
+}
+
 pub fn call_node<'db>(db: &'db dyn Hdb, n: usize, arg: u16) -> u16 {
     let ctx = db.ctx();
     let k = ctx.keys.get().unwrap()[n];
     match ctx.prog.nodes[n].kind {
-        Kind::Plain => q_plain(db, k).v,
-        Kind::NoEq => q_noeq(db, k).v,
-        Kind::Lru => q_lru(db, k).v,
-        Kind::Multi => q_multi(db, k, arg).v,
+        Kind::Plain => retain(ctx, q_plain(db, k)).v,
+        Kind::NoEq => retain(ctx, q_noeq(db, k)).v,
+        Kind::Lru => retain(ctx, q_lru(db, k)).v,
+        Kind::Multi => retain(ctx, q_multi(db, k, arg)).v,
         Kind::Maker => maker_vec(db, n).len() as u16,
-        Kind::Fix => q_fix(db, k).v,
-        Kind::FixJ => q_fixj(db, k).v,
-        Kind::Fb => q_fb(db, k).v,
+        Kind::Fix if ctx.prog.nodes[n].lru_fix => retain(ctx, q_fix_lru(db, k)).v,
+        Kind::Fix => retain(ctx, q_fix(db, k)).v,
+        Kind::FixJ => retain(ctx, q_fixj(db, k)).v,
+        Kind::Fb => retain(ctx, q_fb(db, k)).v,
     }
 }
 
